@@ -23,6 +23,9 @@ use crate::actor::supervision::SupervisionTree;
 use crate::concurrency as mpsc;
 #[cfg(feature = "verif_hooks")]
 use crate::verif::chan as mpsc;
+#[cfg(feature = "verif_hooks")]
+use crate::verif::chan::MpscUnboundedReceiver as InputPortReceiver;
+#[cfg(not(feature = "verif_hooks"))]
 use crate::concurrency::MpscUnboundedReceiver as InputPortReceiver;
 #[cfg(not(feature = "verif_hooks"))]
 use crate::concurrency::MpscUnboundedSender as InputPort;
